@@ -25,3 +25,62 @@ Proof.
   - intro H. apply H1. destruct (check_public_key key) as [[]|e|]; [reflexivity|discriminate|discriminate].
   - intro H. rewrite (H2 H). reflexivity.
 Qed.
+
+(* ---- PublicKey::from_le_bytes, try_from_bigint and client_try_from_bigint, translated from src/key.rs
+   on this run (the padded copy `key[0..b.len()].clone_from_slice(&b)` with its range and length checks;
+   the back end's to_bytes_le / % are the modelled dependency) ---- *)
+From Coq Require Import Lia.
+From WS Require Import model.Bigint.
+
+Definition pk_view (r : res (list N) pk_error) : option (list N + pk_error) :=
+  match r with Ok a => Some (inl a) | Err e => Some (inr e) | Panic => None end.
+
+Lemma key_public_from_le_bytes_translated : forall key,
+  tr_key_public_from_le_bytes key = pk_view (pk_from_le_bytes key).
+Proof.
+  intros key. unfold tr_key_public_from_le_bytes, pk_from_le_bytes. rewrite key_check_public_key_translated.
+  destruct (check_public_key key) as [[]|e|]; reflexivity.
+Qed.
+
+Lemma skipn_repeat_N' : forall n m (x : N), skipn n (repeat x m) = repeat x (m - n).
+Proof. induction n as [|n IH]; intros [|m] x; cbn [skipn repeat Nat.sub]; try reflexivity. apply IH. Qed.
+
+(* the range / length checks of the padded copy are exactly pad_to's Panic condition *)
+Lemma padded_copy : forall {R} len (v : list N) (k : list N -> option R),
+  (let v_key := repeat 0%N len in
+   if (N.of_nat (length v_key) <? N.of_nat (length v))%N then None else if (N.of_nat (length v) <? 0)%N then None else
+   if negb (N.of_nat (length v) =? N.of_nat (length v) - 0)%N then None else
+   let v_key := (firstn (N.to_nat 0) v_key ++ v ++ skipn (N.to_nat (N.of_nat (length v))) v_key) in
+   k v_key)
+  = match pad_to len v with Ok a => k a | _ => None end.
+Proof.
+  intros R len v k. cbv zeta. unfold pad_to. rewrite repeat_length.
+  destruct (Nat.ltb_spec len (length v)) as [Hlt|Hge].
+  - destruct (N.ltb_spec (N.of_nat len) (N.of_nat (length v))) as [_|H]; [reflexivity|lia].
+  - destruct (N.ltb_spec (N.of_nat len) (N.of_nat (length v))) as [H|_]; [lia|].
+    destruct (N.ltb_spec (N.of_nat (length v)) 0) as [H|_]; [lia|].
+    rewrite N.sub_0_r, N.eqb_refl. cbn [negb firstn app]. rewrite Nat2N.id, skipn_repeat_N'. reflexivity.
+Qed.
+
+Lemma key_try_from_bigint_translated : forall be z,
+  tr_key_try_from_bigint be z = pk_view (pk_try_from_bigint be z).
+Proof.
+  intros be z. unfold tr_key_try_from_bigint, pk_try_from_bigint.
+  pose proof (padded_copy (N.to_nat public_key_length) (to_bytes_le be z)
+             (fun v_key => match tr_key_public_from_le_bytes v_key with None => None | Some o1 => Some o1 end)) as P.
+  cbv zeta in P. cbv zeta. rewrite P. clear P.
+  destruct (pad_to _ _) as [key|e|]; [|destruct e|reflexivity].
+  rewrite key_public_from_le_bytes_translated. destruct (pk_from_le_bytes key) as [a|e|]; reflexivity.
+Qed.
+
+Lemma key_client_try_from_bigint_translated : forall be z n',
+  tr_key_client_try_from_bigint be z n' = pk_view (pk_client_try_from_bigint be z n').
+Proof.
+  intros be z n'. unfold tr_key_client_try_from_bigint, pk_client_try_from_bigint.
+  destruct (is_zero z); [reflexivity|].
+  destruct (rem z (from_bytes_le n')) as [r|e|]; [|destruct e|reflexivity].
+  destruct (is_zero r); [reflexivity|].
+  pose proof (padded_copy (N.to_nat public_key_length) (to_bytes_le be z) (fun v_key => @Some (list N + pk_error) (inl v_key))) as P.
+  cbv zeta in P. cbv zeta. rewrite P. clear P.
+  destruct (pad_to _ _) as [key|e|]; [reflexivity|destruct e|reflexivity].
+Qed.
